@@ -72,6 +72,7 @@ func runAll(ctx *Ctx, sel func(*FuncContract) bool, secs int, thorough bool, job
 	var all []*OblResult
 	for _, fr := range frs {
 		if fr.VC != nil {
+			useCoreTypes = fr.Contract.CoreTypes
 			fr.VC.declsCache = fr.VC.tt.Decls()
 		}
 		for _, o := range fr.Obls {
